@@ -437,7 +437,52 @@ def r7_destructured_names_are_bound_in_source_order(ctx):
     ctx.ob("C09.R7", f"{CORE}::loop::plain symbol bindings expand to loop* as they are", CORE, lp.line, bool(plain), "" if plain else "every loop now goes through the destructuring template")
 
 
+@rule("C09.R9", floor=1)
+def r9_loaded_forms_are_read_one_at_a_time(ctx):
+    """The reader resolves the symbols of a syntax-quoted template when it *reads* the form, against
+    the aliases, interns and refers the current namespace has at that moment.  A template is
+    therefore resolved where it is written only if every earlier form of the file -- the ns form, a
+    require, a def that shadows a referred name -- has been evaluated before the template's form
+    is read.  In load-reader (behind load, load-file, load-string) the form stream is lazy; the loop
+    that walks it has to evaluate the current form before it asks for the next one."""
+    defs = L.top_defs(ctx.lisp(CORE))
+    lr = defs.get("load-reader")
+    if lr is None:
+        raise AnalysisError("anchor vanished: core.lpy::load-reader")
+    comp = [f for f in L.walk(lr) if isinstance(f, L.List) and f.items and f.items[0].text().endswith("compile-and-exec-form")]
+    if not comp:
+        raise AnalysisError("load-reader no longer evaluates its forms with compile-and-exec-form")
+    c = comp[0]
+    ok, why = None, ""
+    for a in L.ancestors(c):
+        h = L.head(a)
+        if h in ("for", "doseq", "run!", "reduce", "reduce*", "map", "mapv", "keep") and any(L.head(x) == "read-seq" for x in L.walk(a)):
+            ok = True  # one element of the lazy stream is taken, then evaluated, then the next is taken
+            break
+        if h == "recur":
+            # arguments are evaluated left to right: the evaluation must come before the stream is advanced
+            idx_c = next(i for i, x in enumerate(a.items) if x is c or any(y is c for y in L.walk(x)))
+            adv = [i for i, x in enumerate(a.items[1:], 1) if any(L.head(y) in ("next", "rest", "nnext", "nthnext", "nthrest", "drop") for y in L.walk(x)) and i != idx_c]
+            ok = not adv or idx_c < min(adv)
+            why = "" if ok else f"`{a.text()[:80]}` advances the lazy stream of forms before the current form is evaluated: the next form is read in the namespace state of *before* this form -- a template right after (ns ...), (require ... :as ...) or (in-ns ...) is resolved against the wrong aliases and interns"
+            break
+        if h in ("loop", "loop*", "let", "let*"):
+            continue
+    if ok is None:
+        raise AnalysisError("load-reader: the way the forms are walked is not one of the recognised shapes")
+    ctx.ob("C09.R9", f"{CORE}::load-reader::each form is evaluated before the next one is read", CORE, c.line, ok, why,
+           witness="(load-string \"(ns lib (:require [basilisp.string :as cs])) (defmacro shout [s] `(cs/upper-case ~s))\") leaves cs/upper-case unresolved in the template")
+
+
+_LR_OLD = "    (last\n     (for [form (read-seq {} reader)]\n       (basilisp.lang.compiler/compile-and-exec-form form\n                                                     ctx\n                                                     *ns*)))))\n"
+
 SELFTEST = [
+    {"name": "load-reader asks for the next form before it evaluates the current one", "file": CORE, "expect": "C09.R9",
+     "old": _LR_OLD,
+     "new": "    (loop [forms (seq (read-seq {} reader)) result nil]\n      (if forms\n        (recur (next forms) (basilisp.lang.compiler/compile-and-exec-form (first forms) ctx *ns*))\n        result))))\n"},
+    {"name": "twin: load-reader as a loop that evaluates, then advances", "file": CORE, "expect": None,
+     "old": _LR_OLD,
+     "new": "    (loop [result nil forms (seq (read-seq {} reader))]\n      (if forms\n        (recur (basilisp.lang.compiler/compile-and-exec-form (first forms) ctx *ns*) (next forms))\n        result))))\n"},
     {"name": "syntax-quoted empty list becomes (seq (concat)) (the repaired defect)", "file": RD, "expect": "C09.R8",
      "old": "        if len(form) == 0:\n            # `(seq (concat))` would be nil, but the empty list is a list\n            return llist.l(_LIST)\n", "new": ""},
     {"name": "fn destructures the rest parameter first (the repaired defect)", "file": CORE, "expect": "C09.R7",
